@@ -39,7 +39,7 @@ func TestVerifC23(t *testing.T) {
 	defer rep.Finish()
 	vfInitEngine()
 	th := &Thread{}
-	nq := vk.N(1000, 60000)
+	nq := vk.N(3000, 60000)
 	const perDB = 20
 	for qi := 0; qi < nq; {
 		dbi := qi / perDB
